@@ -609,7 +609,10 @@ impl<'a, R: Clone> AsyncGlobalCache<'a, R> {
                 // Score combines frequency, recency, and age
                 let score = frequency_component * position_weight * age_factor;
 
-                if score < best_score {
+                // With a large frequency_weight the score overflows to infinity (or NaN);
+                // some entry must still be chosen, otherwise nothing is evicted and the
+                // limit is exceeded.
+                if best_evict_key.is_none() || score < best_score {
                     best_score = score;
                     best_evict_key = Some(evict_key.clone());
                 }
